@@ -71,9 +71,23 @@ func (s *StepCodeGenerator) Run(_ *input.Input, o *output.Output) error {
 // so a failed write (e.g. a full disk) never leaves a truncated or partial file behind.
 func writeFile(name string, data []byte, perm os.FileMode) (err error) {
 	fi, statErr := os.Lstat(name)
+	if statErr == nil && fi.Mode()&os.ModeSymlink != 0 {
+		// replace the file the link points to, the link itself stays
+		if target, err := filepath.EvalSymlinks(name); err == nil {
+			name = target
+			fi, statErr = os.Lstat(name)
+		} else if link, linkErr := os.Readlink(name); linkErr == nil && errors.Is(err, fs.ErrNotExist) {
+			// a dangling link: create the file it points to (relative to the directory of the link)
+			if !filepath.IsAbs(link) {
+				link = filepath.Join(filepath.Dir(name), link)
+			}
+			name = link
+			fi, statErr = os.Lstat(name)
+		}
+	}
 	switch {
 	case statErr == nil && !fi.Mode().IsRegular():
-		// devices, pipes, symlinks: there is nothing to replace, write through
+		// devices, pipes, dangling symlinks: there is nothing to replace, write through
 		return os.WriteFile(name, data, perm)
 	case statErr == nil:
 		perm = fi.Mode().Perm()
